@@ -353,7 +353,8 @@ def s3_ensure_level(ctx) -> None:
     loops = [w for w in walk_local(f) if isinstance(w, ast.While)]
     apps = [x for x in walk_local(f) if isinstance(x, ast.Call) and norm(x.func) == "self.terms_cache.append"]
     okl = (len(loops) == 1 and norm(loops[0].test) in ("n >= len(self.terms_cache)", "len(self.terms_cache) <= n")
-           and len(apps) == 1 and C.stmt_of(apps[0]) in loops[0].body and C.followed_by(f, c, apps[0]))
+           and len(apps) == 1 and C.stmt_of(apps[0]) in loops[0].body
+           and (C.followed_by(f, c, apps[0]) or any(x is c for x in ast.walk(apps[0]))))
     if okl:
         ctx.ok("S3", "exactly one level is appended per iteration, until level n exists")
     else:
